@@ -53,6 +53,14 @@ theorem accepted_kraus_set_nearly_preserves_trace {d : Nat} {ι : Type} (s : Fin
     ‖(∑ i ∈ s, K i * ρ * (K i)ᴴ).trace - ρ.trace‖ ≤ ε * ∑ r, ∑ c, ‖ρ c r‖ :=
   PW.Decide.trace_defect_bound s K ρ ε hS
 
+/-- the request validation of the source (every `raise` under an `if`, regenerated on every run) is
+the table the model assumes; in particular every envelope method that takes operands rejects
+non-members by identity -/
+theorem request_guards_table : PW.Generated.guardTable = PW.TablesSpec.expectedGuards :=
+  PW.Props.Tables.guards_as_expected
+theorem envelope_rejects_foreign_members : PW.TablesSpec.envelopeMembershipGuarded PW.Generated.guardTable = true :=
+  PW.Props.Tables.envelope_membership_guarded
+
 theorem kraus_check_source : PW.Generated.krausCheckSource = PW.TablesSpec.expectedKrausCheckSource :=
   PW.Props.Tables.kraus_check_source_as_expected
 
@@ -66,3 +74,5 @@ end PW.Props.C17
 #print axioms PW.Props.C17.kraus_check_exact
 #print axioms PW.Props.C17.accepted_kraus_set_nearly_preserves_trace
 #print axioms PW.Props.C17.kraus_check_source
+#print axioms PW.Props.C17.request_guards_table
+#print axioms PW.Props.C17.envelope_rejects_foreign_members
